@@ -526,7 +526,7 @@ import json as _json
 
 
 def json_of(v, vm=True):
-    """(text, tree-sexp) or None when the value has no JSON form. Fields marshalling to null are dropped."""
+    """(text, tree-sexp) or None when the value has no JSON form (none/null fields are written as null: X24)."""
     t = v[0]
     if t in ("null", "none"):
         return "null", "null"
@@ -555,8 +555,6 @@ def json_of(v, vm=True):
             p = json_of(x, vm)
             if p is None:
                 return None
-            if p[0] == "null":
-                continue
             txt.append(_json.dumps(k, ensure_ascii=False) + ":" + p[0])
             tree.append(f" ({hexs(k)} {p[1]})")
         return "{" + ",".join(txt) + "}", "(jo" + "".join(tree) + ")"
